@@ -23,6 +23,7 @@ import PV.Model.Gls
 import PV.Model.Tree
 import PV.Model.Text
 import PV.Model.JsonDoc
+import PV.Model.Pobs
 
 open Lean PV PV.Wire
 
@@ -538,6 +539,25 @@ def opJsonDoc (j : Json) : Except String Json := do
     | .error e => pure (obj [("exc", .str (reprStr e))])
   | _ => throw s!"unknown jsondoc request {what}"
 
+/-- op "pobs": {"obs": [Obs], "k": n | null} ->
+      {"blocks": [{"id", "nc", "na", "cfg": [c], "num": [[x]]}] (tokens of every block, row by row),
+       "obs": [Obs] (what the reader makes of the blocks)} | {"exc": kind} (writer) | {"blocks", "rexc": kind} -/
+def opPobs (j : Json) : Except String Json := do
+  let ol : List (Obs Float) ← get j "obs"
+  let k : Option Nat ← match j.getObjVal? "k" with
+    | .ok .null => pure none
+    | .ok v => do pure (some (← jNat v))
+    | .error _ => pure none
+  match Pobs.write ol with
+  | .error e => pure (obj [("exc", .str (reprStr e))])
+  | .ok bs =>
+    let bj := Json.arr (bs.map (fun b => obj [("id", .str b.id), ("nc", enc b.nc), ("na", enc b.na),
+      ("cfg", enc (b.toks.filterMap Pobs.asCfg)), ("num", enc (b.toks.filterMap Pobs.asNum)),
+      ("kinds", .str (String.ofList (b.toks.map (fun t => match t with | .cfg _ => 'c' | .num _ => 'n'))))])).toArray
+    match Pobs.read k bs with
+    | .ok got => pure (obj [("blocks", bj), ("obs", enc got)])
+    | .error e => pure (obj [("blocks", bj), ("rexc", .str (reprStr e))])
+
 /-- op "fitlinear" (exact rationals): {"blocks": [{"key", "rows": [[q]], "y": [q], "dy": [q]}] (in the order handed over),
     "npar": n, "priors": [[index, value, width]]} -> {"p", "S", "chisq", "order": keys as stacked} | {"exc": "singular"} -/
 def opFitLinear (j : Json) : Except String Json := do
@@ -576,6 +596,7 @@ def dispatch (op : String) (j : Json) : Except String Json :=
   | "tree" => opTree j
   | "textblock" => opTextBlock j
   | "jsondoc" => opJsonDoc j
+  | "pobs" => opPobs j
   | "sortnames" => opSortNames j
   | "select" => opSelect j
   | "jsonrep" => opJsonRep j
